@@ -52,6 +52,7 @@ type Contract struct {
 	Inline      bool
 	MayPanic    bool // documented to panic (Must* helpers): panic-reachable not generated
 	Lemma       bool
+	Decreases   *Clause // termination measure of a recursive function
 	Global      bool
 	Binders     []Binder // for lemmas
 	Uses        []string // prelude symbols to force-include
@@ -212,9 +213,10 @@ func ParseContractFile(path, pkgPath string) ([]*Contract, error) {
 				curLoop.Invariants = append(curLoop.Invariants, cl)
 			case "decreases":
 				if curLoop == nil {
-					return nil, fmt.Errorf("%s:%d: decreases outside loop", path, ln)
+					cur.Decreases = &cl
+				} else {
+					curLoop.Decreases = &cl
 				}
-				curLoop.Decreases = &cl
 			}
 		case "let":
 			i := strings.Index(rest, "=")
